@@ -98,7 +98,11 @@ func Counting(p *core.Prog, r *core.Report) {
 		} else {
 			exit := loopExitOf(phi)
 			var bad []string
-			for k := int64(0); k <= 3; k++ {
+			maxK := int64(3)
+			if Deep {
+				maxK = 8
+			}
+			for k := int64(0); k <= maxK; k++ {
 				msgs := messagesReached(p, na, f, exit, map[ssa.Value]aval{phi: cInt(k)})
 				got := strings.Join(msgs, ";")
 				ok := false
@@ -146,7 +150,11 @@ func Counting(p *core.Prog, r *core.Report) {
 				r.Bad(rule, "allOf:all", p.Pos(f.Pos()), "the number of valid members is not compared with the number of allOf members")
 			} else {
 				var bad []string
-				for n := int64(1); n <= 3; n++ {
+				maxN := int64(3)
+				if Deep {
+					maxN = 7
+				}
+				for n := int64(1); n <= maxN; n++ {
 					for k := int64(0); k <= n; k++ {
 						preset := map[ssa.Value]aval{phi: cInt(k)}
 						for _, lc := range lenCalls {
